@@ -185,6 +185,8 @@ def main():
         },
         "engines": [
             {"name": "PYX", "path": "/verif/vlib", "serves_properties": [p for p in built if "PYX" in CHECKS[p]["engine"]], "kind_free_text": "Python explorer driving the real _fast extension and the real client classes against a scripted in-process agent; explicit-state / history / input enumeration with reference models"},
+            {"name": "LOOMX", "path": "/verif/vlib/loomx.py", "serves_properties": ["C03", "C17"], "kind_free_text": "loom (preemption-bounded exhaustive interleavings) over the real buf/pool.rs + buf/buffer.rs, std::sync mapped to loom::sync by a textual shim; secondary sub-check"},
+            {"name": "MIRIX", "path": "/verif/vlib/mirix.py", "serves_properties": ["C17"], "kind_free_text": "Miri as an undefined-behaviour monitor over a small slice of the C17 buffer-operation enumeration (thorough tier only; not a deciding engine)"},
             {"name": "RSX", "path": "/verif/rs", "serves_properties": [p for p in built if "RSX" in CHECKS[p]["engine"]], "kind_free_text": "Rust explorer linked against /repo/src as an rlib: bounded-exhaustive enumeration at the crate's Rust API with independent reference codec"},
         ],
         "checks": [],
